@@ -107,12 +107,14 @@ const (
 	CredSelfSigned   = "self-signed"
 	CredForeignCA    = "foreign-ca"
 	CredExpired      = "expired"
+	CredJustExpired  = "expired-two-seconds-ago"
+	CredNotYetValid  = "valid-from-in-30-seconds"
 	CredWrongCN      = "right-ca-wrong-cn"
 	CredCNOnIntermed = "right-ca-cn-only-on-intermediate"
 	CredRight        = "right-ca-right-cn"
 )
 
-var AllCreds = []string{CredNone, CredSelfSigned, CredForeignCA, CredExpired, CredWrongCN, CredCNOnIntermed, CredRight}
+var AllCreds = []string{CredNone, CredSelfSigned, CredForeignCA, CredExpired, CredJustExpired, CredNotYetValid, CredWrongCN, CredCNOnIntermed, CredRight}
 
 // ClientConfig builds the tls.Config of a client presenting the credential.
 func (p *PKI) ClientConfig(kind string) *tls.Config {
@@ -135,6 +137,11 @@ func (p *PKI) ClientConfig(kind string) *tls.Config {
 		cfg.Certificates = []tls.Certificate{chain(mint(p.CommonName, p.ForeignCA, false, now.Add(-time.Hour), now.Add(time.Hour), false))}
 	case CredExpired:
 		cfg.Certificates = []tls.Certificate{chain(mint(p.CommonName, p.CA, false, now.Add(-48*time.Hour), now.Add(-24*time.Hour), false))}
+	case CredJustExpired:
+		// validity is checked against the clock as it is, without an allowance on either side
+		cfg.Certificates = []tls.Certificate{chain(mint(p.CommonName, p.CA, false, now.Add(-48*time.Hour), now.Add(-2*time.Second), false))}
+	case CredNotYetValid:
+		cfg.Certificates = []tls.Certificate{chain(mint(p.CommonName, p.CA, false, now.Add(30*time.Second), now.Add(time.Hour), false))}
 	case CredWrongCN:
 		cfg.Certificates = []tls.Certificate{chain(mint("somebody else", p.CA, false, now.Add(-time.Hour), now.Add(time.Hour), false))}
 	case CredCNOnIntermed:
